@@ -128,7 +128,7 @@ def run(ctx, prop):
         return
     ctx.cov["solsrc_mismatches"] = len(bad)
     seen = set()
-    for i in bad:
+    for i in bad[:6]:      # one small evaluation per reported row; the classes (decision / fields / two-readings) show within the first few
         r = rows[i]
         # what the translated contract does with this input (one small evaluation per reported class)
         okd, o = core.coq_eval(ctx, "cases_%s_solsrc_diag" % prop, HDR + "Definition c : %s := %s.\nDefinition D := Eval vm_compute in let '(w, keys, tbl, h, acc, gf, itf) := c in "
